@@ -1,7 +1,12 @@
-//! Generic law bodies. Each is instantiated once per lattice type by the generated `inst_*.rs`
-//! files (Kani verifies one monomorphisation per harness; the evidence lists each).
+//! Generic law bodies. Each is instantiated once per lattice type / shape by the generated
+//! `inst_*.rs` files (Kani verifies one monomorphisation per harness; the evidence lists each).
 //!
-//! Everything named `x, y, z` is a fully symbolic value of the type (see `types.rs`).
+//! `*_on` variants take the values (built by the generated harness with a concrete *shape* and
+//! symbolic *contents*); the plain variants build fully symbolic values with `Lat::sym()`.
+//!
+//! `m` is a bit mask telling which vacuity witnesses (`cov!`) are satisfiable for the instance — a
+//! witness that cannot exist for a shape (e.g. "strictly less" between two sets of equal size) is
+//! switched off by the generator; every witness that is on must come back SATISFIED.
 
 use core::cmp::Ordering::*;
 
@@ -9,48 +14,89 @@ use lattices::{IsBot, IsTop, LatticeFrom, Merge};
 
 use crate::cov;
 use crate::model::Model;
-use crate::types::Lat;
+use crate::types::{HasModel, Lat};
 
-/// C01: idempotent, commutative, associative — judged by the lattice's own `==` *and* by the
-/// independent model (so a bug shared by `merge` and `eq` cannot cancel).
-pub fn c01<T>(can_change: bool, has_incomparable: bool)
+pub const A: u8 = 1;
+pub const B: u8 = 2;
+pub const C: u8 = 4;
+pub const D: u8 = 8;
+#[inline(always)]
+fn on(m: u8, bit: u8) -> bool {
+    m & bit != 0
+}
+
+/// C01 is split in three harness bodies (i/c/a) so that heap-backed instances stay small.
+/// Everything is judged by the lattice's own `==` *and* by the independent model (so a bug shared by
+/// `merge` and `eq` cannot cancel).
+pub fn c01i<T>(_m: u8)
 where
     T: Lat + Merge<T> + PartialEq,
 {
-    let x = T::sym();
-    let y = T::sym();
-    let z = T::sym();
-
-    // idempotence
-    let xx = Merge::merge_owned(x.clone(), x.clone());
+    c01i_on(T::sym())
+}
+/// C01 idempotence.
+pub fn c01i_on<T>(x: T)
+where
+    T: HasModel + Merge<T> + PartialEq,
+{
+    let mut xx = x.clone();
+    let ch = xx.merge(x.clone());
+    assert!(!ch, "C01 idempotence: merge(x,x) reported a change");
     assert!(xx == x, "C01 idempotence (==): merge(x,x) != x");
     assert!(xx.model().eqv(&x.model()), "C01 idempotence (model): merge(x,x) != x");
-
-    // commutativity
+    cov!(true, "reached end");
+}
+/// C01 commutativity. witnesses: A = join differs from receiver, B = join differs from both operands.
+pub fn c01c<T>(m: u8)
+where
+    T: Lat + Merge<T> + PartialEq,
+{
+    c01c_on(T::sym(), T::sym(), m)
+}
+pub fn c01c_on<T>(x: T, y: T, m: u8)
+where
+    T: HasModel + Merge<T> + PartialEq,
+{
     let xy = Merge::merge_owned(x.clone(), y.clone());
     let yx = Merge::merge_owned(y.clone(), x.clone());
     assert!(xy == yx, "C01 commutativity (==): merge(x,y) != merge(y,x)");
     assert!(xy.model().eqv(&yx.model()), "C01 commutativity (model): merge(x,y) != merge(y,x)");
-
-    // associativity
-    let yz = Merge::merge_owned(y.clone(), z.clone());
+    cov!(!on(m, B) || (!xy.model().eqv(&x.model()) && !xy.model().eqv(&y.model())), "join differs from both operands");
+    cov!(!on(m, A) || !xy.model().eqv(&x.model()), "join differs from receiver");
+}
+/// C01 associativity. witnesses: A = y changes x, B = z changes x+y.
+pub fn c01a<T>(m: u8)
+where
+    T: Lat + Merge<T> + PartialEq,
+{
+    c01a_on(T::sym(), T::sym(), T::sym(), m)
+}
+pub fn c01a_on<T>(x: T, y: T, z: T, m: u8)
+where
+    T: HasModel + Merge<T> + PartialEq,
+{
+    let xy = Merge::merge_owned(x.clone(), y.clone());
+    let yz = Merge::merge_owned(y, z.clone());
     let x_yz = Merge::merge_owned(x.clone(), yz);
-    let xy_z = Merge::merge_owned(xy.clone(), z.clone());
+    let xy_z = Merge::merge_owned(xy.clone(), z);
     assert!(x_yz == xy_z, "C01 associativity (==): x+(y+z) != (x+y)+z");
     assert!(x_yz.model().eqv(&xy_z.model()), "C01 associativity (model): x+(y+z) != (x+y)+z");
-
-    cov!(!has_incomparable || (!xy.model().eqv(&x.model()) && !xy.model().eqv(&y.model())), "join differs from both operands");
-    cov!(!can_change || (!xy.model().eqv(&x.model())), "join differs from receiver");
-    cov!(true, "reached end");
+    cov!(!on(m, A) || !xy.model().eqv(&x.model()), "y changes x");
+    cov!(!on(m, B) || !xy_z.model().eqv(&xy.model()), "z changes x+y");
 }
 
 /// C02: the flag is `true` exactly when the receiver strictly grew.
-pub fn c02<T>(can_change: bool, _has_incomparable: bool)
+/// witnesses: A = flag true, B = flag false.
+pub fn c02<T>(m: u8)
 where
     T: Lat + Merge<T> + PartialEq + PartialOrd,
 {
-    let x = T::sym();
-    let y = T::sym();
+    c02_on(T::sym(), T::sym(), m)
+}
+pub fn c02_on<T>(x: T, y: T, m: u8)
+where
+    T: HasModel + Merge<T> + PartialEq + PartialOrd,
+{
     let before = x.clone();
     let mut a = x;
     let ch = a.merge(y.clone());
@@ -69,21 +115,23 @@ where
         );
         assert!(y.model().le(&before.model()), "C02 flag false but delta not <= receiver (model)");
     }
-    cov!(!can_change || (ch), "flag true");
-    cov!(!ch, "flag false");
+    cov!(!on(m, A) || ch, "flag true");
+    cov!(!on(m, B) || !ch, "flag false");
 }
 
-/// C03: comparisons, bottom, top agree with merge and form a partial order.
-pub fn c03<T>(can_differ: bool, has_incomparable: bool)
+/// C03 (part m): comparisons, bottom, top agree with the independent model order.
+/// witnesses: A = less, B = greater, C = incomparable, D = equal.
+pub fn c03m<T>(m: u8)
 where
-    T: Lat + Merge<T> + PartialEq + PartialOrd + IsBot + IsTop,
+    T: Lat + PartialEq + PartialOrd + IsBot + IsTop,
 {
-    let x = T::sym();
-    let y = T::sym();
-    let z = T::sym();
+    c03m_on(T::sym(), T::sym(), m)
+}
+pub fn c03m_on<T>(x: T, y: T, m: u8)
+where
+    T: HasModel + PartialEq + PartialOrd + IsBot + IsTop,
+{
     let (mx, my) = (x.model(), y.model());
-
-    // agreement with the independent model order
     let mc = mx.cmp(&my);
     assert!(x.partial_cmp(&y) == mc, "C03 partial_cmp != model order");
     assert!((x == y) == (mc == Some(Equal)), "C03 eq != model equivalence");
@@ -91,36 +139,65 @@ where
     assert!(x.is_bot() || !mx.is_bot(), "C03 is_bot false for the least element");
     assert!(!x.is_top() || mx.is_top(), "C03 is_top true for a value that is not the greatest element");
     assert!(x.is_top() || !mx.is_top(), "C03 is_top false for the greatest element");
+    // bottom / top against the crate's own order
+    assert!(!x.is_bot() || x <= y, "C03 is_bot but not least");
+    assert!(!x.is_top() || y <= x, "C03 is_top but not greatest");
+    cov!(!on(m, A) || mc == Some(Less), "less");
+    cov!(!on(m, B) || mc == Some(Greater), "greater");
+    cov!(!on(m, C) || mc.is_none(), "incomparable");
+    cov!(!on(m, D) || mc == Some(Equal), "equal");
+}
 
-    // a <= b  <=>  merging a into b leaves b unchanged (re-derived here, not via naive_cmp)
+/// C03 (part o): `a <= b` iff merging `a` into `b` leaves `b` unchanged (re-derived here, not via
+/// `naive_cmp`), equality is the induced equivalence, duality.
+/// witnesses: A = below, B = not below.
+pub fn c03o<T>(m: u8)
+where
+    T: Lat + Merge<T> + PartialEq + PartialOrd,
+{
+    c03o_on(T::sym(), T::sym(), m)
+}
+pub fn c03o_on<T>(x: T, y: T, m: u8)
+where
+    T: HasModel + Merge<T> + PartialEq + PartialOrd,
+{
     let yy = Merge::merge_owned(y.clone(), x.clone());
-    assert!((x <= y) == (yy == y), "C03 (x <= y) != (merge(y,x) == y)");
-
-    // equality is the induced equivalence; partial order axioms with the crate's own operators
+    let le = x <= y;
+    assert!(le == (yy == y), "C03 (x <= y) != (merge(y,x) == y)");
     assert!(x == x, "C03 reflexive ==");
     assert!(x.partial_cmp(&x) == Some(Equal), "C03 reflexive partial_cmp");
     assert!((x == y) == (y == x), "C03 symmetric ==");
     assert!((x == y) == (x.partial_cmp(&y) == Some(Equal)), "C03 == iff Equal");
-    assert!(!(x <= y && y <= x) || x == y, "C03 antisymmetry");
-    assert!(!(x <= y && y <= z) || x <= z, "C03 transitivity <=");
-    assert!(!(x == y && y == z) || x == z, "C03 transitivity ==");
+    assert!(!(le && y <= x) || x == y, "C03 antisymmetry");
     assert!((x < y) == (y > x), "C03 duality");
-    assert!((x <= y) == (x < y || x == y), "C03 <= iff < or ==");
+    assert!(le == (x < y || x == y), "C03 <= iff < or ==");
+    cov!(!on(m, A) || le, "below");
+    cov!(!on(m, B) || !le, "not below");
+}
 
-    // bottom / top
-    assert!(!x.is_bot() || x <= y, "C03 is_bot but not least");
-    assert!(!x.is_top() || y <= x, "C03 is_top but not greatest");
-
-    cov!(!can_differ || (mc == Some(Less)), "less");
-    cov!(!can_differ || (mc == Some(Greater)), "greater");
-    cov!(!has_incomparable || (mc.is_none()), "incomparable");
-    cov!(mc == Some(Equal), "equal");
+/// C03 (part t): transitivity on a symbolic triple with the crate's own operators.
+/// witnesses: A = chain x<=y<=z, B = strict chain.
+pub fn c03t<T>(m: u8)
+where
+    T: Lat + PartialEq + PartialOrd,
+{
+    c03t_on(T::sym(), T::sym(), T::sym(), m)
+}
+pub fn c03t_on<T>(x: T, y: T, z: T, m: u8)
+where
+    T: HasModel + PartialEq + PartialOrd,
+{
+    let (xy, yz) = (x <= y, y <= z);
+    assert!(!(xy && yz) || x <= z, "C03 transitivity <=");
+    assert!(!(x == y && y == z) || x == z, "C03 transitivity ==");
+    cov!(!on(m, A) || (xy && yz), "chain");
+    cov!(!on(m, B) || (xy && yz && !(z <= x)), "strict chain");
 }
 
 /// C03: `Default` is bottom.
 pub fn c03_default<T>()
 where
-    T: Lat + Default + IsBot,
+    T: HasModel + Default + IsBot,
 {
     let d = T::default();
     assert!(d.is_bot(), "C03 default is not is_bot");
@@ -128,13 +205,17 @@ where
     cov!(true, "reached end");
 }
 
-/// C04: merge computes the documented join.
-pub fn c04<T>(can_change: bool, _has_incomparable: bool)
+/// C04: merge computes the documented join. witnesses: A = changed, B = unchanged.
+pub fn c04<T>(m: u8)
 where
     T: Lat + Merge<T> + LatticeFrom<T>,
 {
-    let x = T::sym();
-    let y = T::sym();
+    c04_on(T::sym(), T::sym(), m)
+}
+pub fn c04_on<T>(x: T, y: T, m: u8)
+where
+    T: HasModel + Merge<T> + LatticeFrom<T>,
+{
     let want = x.model().join(&y.model());
     let mut a = x.clone();
     let ch = a.merge(y.clone());
@@ -143,51 +224,47 @@ where
     assert!(b.model().eqv(&want), "C04 merge_owned result != model join");
     let c = T::lattice_from(y.clone());
     assert!(c.model().eqv(&y.model()), "C04 lattice_from(self type) changed the value");
-    cov!(!can_change || (ch), "changed");
-    cov!(!ch, "unchanged");
+    cov!(!on(m, A) || ch, "changed");
+    cov!(!on(m, B) || !ch, "unchanged");
 }
 
 /// C02+C04 for heterogeneous merges `A: Merge<B>`: same model result and exact flag.
-pub fn het_merge<A, B>()
+/// witnesses: A = changed, B = unchanged.
+pub fn het_merge_on<X, Y>(a0: X, b: Y, m: u8)
 where
-    A: Lat + Merge<B>,
-    B: Lat<M = A::M>,
+    X: HasModel + Merge<Y>,
+    Y: HasModel<M = X::M>,
 {
-    let a0 = A::sym();
-    let b = B::sym();
     let (ma, mb) = (a0.model(), b.model());
     let mut a = a0.clone();
     let ch = a.merge(b);
     assert!(a.model().eqv(&ma.join(&mb)), "C04 heterogeneous merge != model join");
     assert!(ch == !a.model().eqv(&ma), "C02 heterogeneous merge flag != (value changed)");
-    cov!(ch, "changed");
-    cov!(!ch, "unchanged");
+    cov!(!on(m, A) || ch, "changed");
+    cov!(!on(m, B) || !ch, "unchanged");
 }
 
-/// C03 for cross-representation comparisons.
-pub fn het_cmp<A, B>()
+/// C03 for cross-representation comparisons. witnesses: A = equal, B = not equal.
+pub fn het_cmp_on<X, Y>(a: X, b: Y, m: u8)
 where
-    A: Lat + PartialOrd<B> + PartialEq<B>,
-    B: Lat<M = A::M>,
+    X: HasModel + PartialOrd<Y> + PartialEq<Y>,
+    Y: HasModel<M = X::M>,
 {
-    let a = A::sym();
-    let b = B::sym();
     let mc = a.model().cmp(&b.model());
     assert!(a.partial_cmp(&b) == mc, "C03 cross-representation partial_cmp != model order");
     assert!((a == b) == (mc == Some(Equal)), "C03 cross-representation eq != model equivalence");
-    cov!(mc == Some(Equal), "equal");
-    cov!(mc != Some(Equal), "not equal");
+    cov!(!on(m, A) || mc == Some(Equal), "equal");
+    cov!(!on(m, B) || mc != Some(Equal), "not equal");
 }
 
 /// C04 for conversions.
-pub fn het_from<A, B>()
+pub fn het_from_on<X, Y>(b: Y)
 where
-    A: Lat + LatticeFrom<B>,
-    B: Lat<M = A::M>,
+    X: HasModel + LatticeFrom<Y>,
+    Y: HasModel<M = X::M>,
 {
-    let b = B::sym();
     let mb = b.model();
-    let a = A::lattice_from(b);
+    let a = X::lattice_from(b);
     assert!(a.model().eqv(&mb), "C04 lattice_from changed the value");
     cov!(true, "reached end");
 }
